@@ -119,6 +119,14 @@ class C12(Scenario):
                                              "fill returned normally although the quantity of node %d (%s) %s" % (
                                                  nd, prim, "raised" if mode == "raise" else "returned a value of the wrong type"), si,
                                              {"placement": st["faults"], "pos": pos})
+                    if pos in missing:
+                        # the fill went through: then no quantity on this record's path reads the missing field
+                        try:
+                            model.model_doc(sp, [(rec, ws[pos])])
+                        except KeyError as e:
+                            raise self.violation(readers[0]["p"] if readers else sp["p"], "fill", "no-exception:missing-field",
+                                                 "fill returned normally for a record that lacks the field %s which a quantity "
+                                                 "on its path reads" % e, si, {"pos": pos, "missing": missing[pos]})
                     survivors.append((rec, ws[pos]))
                     ok_fills += 1
                     if armed:
